@@ -6,6 +6,7 @@ CHECKERS = dict(C18_rt.CHECKERS)
 
 
 def run(ctx):
+    api.run_vcs(ctx, C18_vc.p_vcs(ctx), {"C18.P.return_recurrence": "real time_distributed_return source for SYMBOLIC horizon and batch size: R[i] = r[i] + gamma R[i+1] for i < T-1 and R[T-1] = r[T-1] (matrix product = partial sums, pow recurrence; two inductions over the summation index), both layouts, gamma = 0 short-cut"})
     api.run_vcs(ctx, C18_vc.vcs(ctx), {"C18.S.return_recurrence": "real time_distributed_return source: R_t = r_t + gamma R_(t+1), R beyond the horizon 0, gamma = 0 short-cut; all rewards and discount factors (real arithmetic)"},
                 bounded="horizons T<=4 (6), batch 1-2, both layouts; ALL rewards and discount factors")
     C18_rt.run_bounded(ctx)
